@@ -2,6 +2,7 @@
 import common as C
 from props._runcommon import RUN_TRUSTED, RUN_ASSUMPTIONS, PropRunStream
 from run import selftest as W
+from run import witnesses2 as W2
 
 PROPERTY = "C03"
 LEAN_MODULES = ["LccModel.Props.C03", "LccModel.Props.C01Graph", "LccModel.Props.C03Run"]
@@ -31,7 +32,7 @@ class Run(PropRunStream):
     quick_cases = 330
     quick_seconds = 50
     p_interrupt = 0.3           # interrupted runs are ordinary cases since fix D11 (teardown order holds under interrupt)
-    corpus = [witness("D11 "), witness("D19 "), witness("N3 "), witness("D17 ")]
+    corpus = [witness("D11 "), witness("D19 "), witness("N3 "), witness("D17 ")] + W2.PRE_RUN_CONTROLS
 
 
 class RunPT(PropRunStream):
@@ -78,21 +79,21 @@ TABLE_OPENS = ("LccModel.SuiteObj",)
 
 
 def tables(ctx):
-    return _inject_table.tables(ctx) + _hooks_table.tables(ctx)
+    return _inject_table.tables(ctx) + _hooks_table.tables(ctx) + _prerun_table.tables(ctx)
 
 
 # ---- the hooks in every shape (method / staticmethod / classmethod / lambda / function assigned in __init__ / partial / callable object
 #      / imported function) and place (class body / base class / mixin / __init__ / suite module) ----------------------------------------
-from props import _hooks, _hooks_table
+from props import _hooks, _hooks_table, _prerun_table
 
 
 class Hooks(_hooks.HooksStream):
     name = "C03.hooks"
 
 
-LEAN_MODULES = LEAN_MODULES + ["LccModel.Props.C03Hooks"]
-PROPS_FILES = PROPS_FILES + ["LccModel/Props/C03Hooks.lean"]
-NAMESPACES = dict(NAMESPACES, **{"LccModel/Props/C03Hooks.lean": "LccModel.C03Hooks"})
+LEAN_MODULES = LEAN_MODULES + ["LccModel.Props.C03Hooks", "LccModel.Props.C03PreRun"]
+PROPS_FILES = PROPS_FILES + ["LccModel/Props/C03Hooks.lean", "LccModel/Props/C03PreRun.lean"]
+NAMESPACES = dict(NAMESPACES, **{"LccModel/Props/C03Hooks.lean": "LccModel.C03Hooks", "LccModel/Props/C03PreRun.lean": "LccModel.C03PreRun"})
 TRUSTED_BASE = TRUSTED_BASE + _hooks.HOOKS_TRUSTED
 RULE = RULE + "; " + _hooks.HOOKS_RULE
 
